@@ -201,8 +201,43 @@ def run_case(arg) -> dict:
             shutil.rmtree(d, ignore_errors=True)
 
 
+def run_history(case: dict) -> dict:
+    """a HISTORY of two different commands into the same output directory:
+       run 1 = case['first'] (roots, args) into D; run 2 = the case's own roots/args into D again and into a fresh F.
+       Observation: every entry of F (what run 2 produces) compared with the same name in D; what only D holds is a
+       leftover of run 1 (pydoctor never cleans the output directory) and is reported separately."""
+    d = Path(tempfile.mkdtemp(prefix='verif_c18h_'))
+    try:
+        src = d / 'src'
+        materialise(src, case, 0)
+        first = dict(case, roots=case['first']['roots'], args=case['first']['args'])
+        D, F = d / 'D', d / 'F'
+        rc1, _ = run_once(src, first, D, 0, -1)
+        prev = tree(D) if D.exists() else {}
+        rc2, log2 = run_once(src, case, D, 0, -1)
+        rc3, _ = run_once(src, case, F, 0, -1)
+        tD, tF = tree(D), tree(F)
+        res = {'equal': True, 'rc': [rc1, rc2, rc3], 'runs': 3,
+               'leftovers': sorted(k for k in tD if k not in tF),
+               'prev_symlinks': {k: v[1] for k, v in prev.items() if v[0] == 'l'}}
+        if rc2 not in (0, 2, 3):
+            res['crash'] = log2[-1500:]
+        sub = {k: tD.get(k) for k in tF}
+        if sub != tF or rc2 != rc3:
+            res['equal'] = False
+            res['diff'] = dict(first_diff(F, D, tF, {k: v for k, v in tD.items() if k in tF}), mode='history',
+                               first_run='fresh directory', second_run='directory that held the result of run 1', rc=[rc3, rc2])
+        return res
+    finally:
+        shutil.rmtree(d, ignore_errors=True)
+
+
 def main() -> None:
     req = json.load(sys.stdin)
+    if req.get('mode') == 'history':
+        with ThreadPoolExecutor(max_workers=req.get('jobs', 4)) as ex:
+            json.dump(list(ex.map(run_history, req['cases'])), sys.stdout)
+        return
     cases = req['cases']
     seeds = req.get('seeds', [0, 1, 2])
     with ThreadPoolExecutor(max_workers=req.get('jobs', 8)) as ex:
